@@ -9,7 +9,7 @@
    edit / delete / corrupt / block gengo.sum / run {All, Force, entrypoints, failing package}.
    [fixes] selects the code before/after the two "fix:" patches; [fixed_all] is the code as it is now. *)
 Require Import Gengo.Base.Bytes Gengo.Model.SumFile Gengo.Model.SumCache.
-Require Import Gengo.Proofs.SumFile Gengo.Proofs.SumCache Gengo.Proofs.SumCacheExamples.
+Require Import Gengo.Proofs.SumFile Gengo.Proofs.SumCache Gengo.Proofs.SumCacheExamples Gengo.Proofs.SumCacheWitness.
 From Coq Require Import Permutation Sorted.
 
 (* 1. Skipped as cached ONLY IF All is set, Force is off, gengo.sum is a readable file and the hash it records
@@ -247,6 +247,57 @@ Qed.
 Example C08_example_history :
   Good.demo = [[Good.pa; Good.pb]; [Good.pa; Good.pb]; []; []; [Good.pa]; [Good.pa]; []].
 Proof. exact good_demo. Qed.
+
+(* ... and in a less degenerate one (Proofs/SumCacheWitness.v, [Deep]): four packages m/a, m/a/sub, m/c, m/d; the
+   directory of m/a/sub is NESTED in the directory of m/a (dirhash of m/a is recursive and covers sub's files, so
+   gen_local holds for p = m/a/sub, q = m/a only through [contains]); the import edge m/c -> m/a is stored in the
+   tree (an edit adds it), m/a always imports m/a/sub; [locals] depends on the tree and on the entrypoints: the
+   packages the entrypoints name (direct) plus what they reach through imports (non-direct), in an unsorted order *)
+Example C08_hypotheses_satisfiable_deep :
+  H_tokens Deep.content Deep.H /\ H_injective Deep.content Deep.H /\ locals_ok Deep.tree Deep.locals
+  /\ gen_idem Deep.tree Deep.gen /\ gen_comm Deep.tree Deep.gen /\ gen_local Deep.tree Deep.content Deep.dirc Deep.gen
+  /\ gen_keeps_locals Deep.tree Deep.gen Deep.locals /\ all_hashable Deep.tree Deep.content Deep.H Deep.dirc.
+Proof.
+  exact (conj Deep.H_tokens_ok (conj Deep.H_injective_ok (conj Deep.locals_ok_ok (conj Deep.gen_idem_ok
+        (conj Deep.gen_comm_ok (conj Deep.gen_local_ok (conj Deep.gen_keeps_locals_ok Deep.all_hashable_ok))))))).
+Qed.
+
+(* in that world, entrypoints m/c and m/d: without the import edge m/c and m/d are loaded; with it m/a/sub and m/a come
+   in as NON-direct packages; other entrypoints for comparison *)
+Example C08_locals_deep :
+  Deep.locals (st_tree Deep.st0) Deep.entry = [(Deep.pd, true); (Deep.pc, true)]
+  /\ Deep.locals (st_tree Deep.s_imp) Deep.entry
+     = [(Deep.pd, true); (Deep.pc, true); (Deep.ps, false); (Deep.pa, false)]
+  /\ Deep.locals (st_tree Deep.s_imp) [Deep.ps] = [(Deep.ps, true)]
+  /\ Deep.locals (st_tree Deep.s_imp) [Deep.pa; Deep.pd] = [(Deep.pd, true); (Deep.ps, false); (Deep.pa, true)].
+Proof. exact deep_locals. Qed.
+
+(* C08_converges instantiated there with every hypothesis proved (the proof applies [converges], it does not
+   compute): from a stale gengo.sum ("m/a h1x\ngarbage"), the import edge present — four local packages, two of them
+   non-direct, one nested in another — after three plain All runs a fourth executes nothing and changes nothing *)
+Example C08_converges_instance_deep :
+  let r := Deep.run (Deep.all_run Deep.entry) in
+  let s3 := fst (r (fst (r (fst (r Deep.s_imp))))) in
+  fst (r s3) = s3 /\ executed (fst (snd (r s3))) = [] /\ snd (snd (r s3)) = ENone.
+Proof. exact deep_converges_instance. Qed.
+Print Assumptions C08_converges_instance_deep.
+
+(* a history there, entrypoints m/c and m/d throughout; what each run executes:
+     from the stale gengo.sum, no import edge (m/a not loaded): run, run, run, run   -> c+d, c+d, nothing, nothing
+     edit: m/c now imports m/a (m/a, m/a/sub loaded, non-direct): run, run, run    -> a+sub+c, a+sub+c, nothing
+     edit of the nested m/a/sub: run, run, run                                     -> a+sub, a+sub, nothing
+       (the outer m/a is regenerated too: its directory covers sub's files)
+     the generated files of m/a and m/a/sub are deleted and gengo.sum is overwritten by one that records m/a's
+     current directory only: run, run, run, run                                    -> sub+c+d, a+sub, a, nothing
+       (THREE runs execute something: m/a is first skipped, then its directory changes because the nested
+        m/a/sub was regenerated, then it changes again because m/a itself was) *)
+Example C08_example_history_deep :
+  Deep.demo =
+    [ [Deep.pc; Deep.pd]; [Deep.pc; Deep.pd]; []; [];
+      [Deep.pa; Deep.ps; Deep.pc]; [Deep.pa; Deep.ps; Deep.pc]; [];
+      [Deep.pa; Deep.ps]; [Deep.pa; Deep.ps]; [];
+      [Deep.ps; Deep.pc; Deep.pd]; [Deep.pa; Deep.ps]; [Deep.pa]; [] ].
+Proof. exact deep_demo. Qed.
 
 (* the repaired code on the refutation's history *)
 Example C08_unhashable_regenerated_after_fix :
